@@ -212,8 +212,16 @@ func evalCase(prog *gl.Program, name string, gores gorun.CaseResult, opt tvOptio
 	}
 	for _, o := range outs {
 		switch o.Kind {
-		case "budget", "unsupported", "diverge", "internal":
+		case "unsupported", "diverge", "internal":
 			return o.String(), "inconclusive:" + o.Kind
+		}
+	}
+	for _, o := range outs {
+		if o.Kind == "budget" {
+			// every generated program is bounded by construction (literal loop bounds, no
+			// recursion beyond depth 10) and the native run returned: a deterministic emitted
+			// program that is still running after the step budget cannot produce Go's result
+			return "diverges: no result within the step budget of the reference interpreter", "mismatch"
 		}
 	}
 	// every policy gave a definite outcome different from Go's
